@@ -4,8 +4,8 @@ Lemmas for C17 (long-file-name decoding): the statements used by `Sdmmc.Props.C1
 `Sdmmc.Props.C17` states its theorems with its own `BufOK`, `FragOK`, `Utf8Inv`, `nameUnits`
 (plain definitions, restated here and in `C17Name` with the same bodies, so the types agree by
 unfolding) and
-`pushAll` (a recursive function: the two lemmas about it are stated for any function satisfying
-its two defining equations, which the caller discharges by `rfl`).
+`pushAll` / `updateAll` (recursive functions: the lemmas about them are stated for any function
+satisfying the two defining equations, which the caller discharges by `rfl`).
 -/
 import Sdmmc.Model.Mgr
 import Sdmmc.Lemmas.C17Name
@@ -205,8 +205,8 @@ theorem update_cases (st st' : SeqState) (buf buf' : Buf) (start : Bool) (sq cs 
     (h : st.update buf start sq cs frag = .ok (st', buf')) :
     (start = true ∧ sq = 1 ∧ st' = .Complete cs ∧ Lfn.push (Lfn.clear buf) frag = .ok buf') ∨
     (start = true ∧ 2 ≤ sq ∧ st' = .Remaining cs (sq - 1) ∧ Lfn.push (Lfn.clear buf) frag = .ok buf') ∨
-    (∃ c, start = false ∧ sq = 1 ∧ st = .Remaining c sq ∧ st' = .Complete c ∧ Lfn.push buf frag = .ok buf') ∨
-    (∃ c, start = false ∧ 1 ≤ sq ∧ st = .Remaining c sq ∧ st' = .Remaining c (sq - 1) ∧
+    (start = false ∧ sq = 1 ∧ st = .Remaining cs sq ∧ st' = .Complete cs ∧ Lfn.push buf frag = .ok buf') ∨
+    (start = false ∧ 1 ≤ sq ∧ st = .Remaining cs sq ∧ st' = .Remaining cs (sq - 1) ∧
       Lfn.push buf frag = .ok buf') ∨
     (st' = .Waiting ∧ buf' = Lfn.clear buf) := by
   unfold SeqState.update at h
@@ -223,15 +223,15 @@ theorem update_cases (st st' : SeqState) (buf buf' : Buf) (start : Bool) (sq cs 
         split at h
         · rename_i hc
           have ⟨h1, h2⟩ := bind_pure_ok h
-          refine .inr (.inr (.inl ⟨c, ?_, hc.2.1, ?_, h1.symm, h2⟩))
+          refine .inr (.inr (.inl ⟨?_, hc.2.1, ?_, h1.symm, h2⟩))
           · simpa using hc.1
-          · rw [hc.2.2]
+          · rw [hc.2.2.1, hc.2.2.2]
         · split at h
           · rename_i hc
             have ⟨h1, h2⟩ := bind_pure_ok h
-            refine .inr (.inr (.inr (.inl ⟨c, ?_, hc.2.1, ?_, h1.symm, h2⟩)))
+            refine .inr (.inr (.inr (.inl ⟨?_, hc.2.1, ?_, h1.symm, h2⟩)))
             · simpa using hc.1
-            · rw [hc.2.2.2]
+            · rw [hc.2.2.2.1, hc.2.2.2.2]
           · simp only [Res.pure_eq] at h
             cases h; exact .inr (.inr (.inr (.inr ⟨rfl, rfl⟩)))
       · simp only [Res.pure_eq] at h
@@ -239,27 +239,176 @@ theorem update_cases (st st' : SeqState) (buf buf' : Buf) (start : Bool) (sq cs 
 
 theorem seq_complete_only_after_one (st st' : SeqState) (buf buf' : Buf) (start : Bool) (sq cs c : Nat)
     (frag : List Nat) (h : st.update buf start sq cs frag = .ok (st', buf')) (hc : st' = .Complete c) :
-    sq = 1 ∧ ((start = true ∧ c = cs) ∨ (start = false ∧ st = .Remaining c 1)) := by
+    sq = 1 ∧ c = cs ∧ (start = true ∨ (start = false ∧ st = .Remaining c 1)) := by
   subst hc
-  rcases update_cases _ _ _ _ _ _ _ _ h with ⟨h1, h2, h3, _⟩ | ⟨_, _, h3, _⟩ | ⟨c', h1, h2, h3, h4, _⟩ |
-    ⟨c', _, _, _, h4, _⟩ | ⟨h4, _⟩
-  · cases h3; exact ⟨h2, .inl ⟨h1, rfl⟩⟩
+  rcases update_cases _ _ _ _ _ _ _ _ h with ⟨h1, h2, h3, _⟩ | ⟨_, _, h3, _⟩ | ⟨h1, h2, h3, h4, _⟩ |
+    ⟨_, _, _, h4, _⟩ | ⟨h4, _⟩
+  · cases h3; exact ⟨h2, rfl, .inl h1⟩
   · cases h3
-  · cases h4; subst h2; exact ⟨rfl, .inr ⟨h1, h3⟩⟩
+  · cases h4; subst h2; exact ⟨rfl, rfl, .inr ⟨h1, h3⟩⟩
   · cases h4
   · cases h4
 
 theorem seq_remaining_only_in_order (st st' : SeqState) (buf buf' : Buf) (start : Bool) (sq cs c n : Nat)
     (frag : List Nat) (h : st.update buf start sq cs frag = .ok (st', buf')) (hc : st' = .Remaining c n) :
-    sq = n + 1 ∧ ((start = true ∧ c = cs) ∨ (start = false ∧ st = .Remaining c sq)) := by
+    sq = n + 1 ∧ c = cs ∧ (start = true ∨ (start = false ∧ st = .Remaining c sq)) := by
   subst hc
-  rcases update_cases _ _ _ _ _ _ _ _ h with ⟨_, _, h3, _⟩ | ⟨h1, h2, h3, _⟩ | ⟨c', _, _, _, h4, _⟩ |
-    ⟨c', h1, h2, h3, h4, _⟩ | ⟨h4, _⟩
+  rcases update_cases _ _ _ _ _ _ _ _ h with ⟨_, _, h3, _⟩ | ⟨h1, h2, h3, _⟩ | ⟨_, _, _, h4, _⟩ |
+    ⟨h1, h2, h3, h4, _⟩ | ⟨h4, _⟩
   · cases h3
-  · cases h3; exact ⟨by omega, .inl ⟨h1, rfl⟩⟩
+  · cases h3; exact ⟨by omega, rfl, .inl h1⟩
   · cases h4
-  · cases h4; exact ⟨by omega, .inr ⟨h1, h3⟩⟩
+  · cases h4; exact ⟨by omega, rfl, .inr ⟨h1, h3⟩⟩
   · cases h4
+
+/-! ### Runs of fragments -/
+
+theorem res_bind_ok {α β} {r : Res α} {f : α → Res β} {y : β} (h : r.bind f = .ok y) :
+    ∃ a, r = .ok a ∧ f a = .ok y := by
+  cases r with
+  | ok a => exact ⟨a, rfl, h⟩
+  | err e => cases h
+  | panic m => cases h
+  | diverged => cases h
+
+/-- A fragment as the listing closure sees it: (is_start, sequence, csum, 13 code units). -/
+abbrev Frag := Bool × Nat × Nat × List Nat
+
+/-- Same equations as `Sdmmc.Props.C17.updateAll`. -/
+def updateAll (st : SeqState) (buf : Buf) : List Frag → Res (SeqState × Buf)
+  | [] => .ok (st, buf)
+  | x :: rest => (st.update buf x.1 x.2.1 x.2.2.1 x.2.2.2).bind fun p => updateAll p.1 p.2 rest
+
+/-- `run` starts with a start-flagged fragment, all its checksum bytes are `c`, and its sequence
+numbers count down without a gap to `n + 1` (so `n` more fragments are expected). -/
+def IsRun (c n : Nat) (run : List Frag) : Prop :=
+  ∃ x tl, run = x :: tl ∧ x.1 = true ∧
+    ∀ i y, run[i]? = some y → y.2.1 = n + (run.length - i) ∧ y.2.2.1 = c
+
+theorem isRun_singleton (s : Bool) (q c : Nat) (fr : List Nat) (n : Nat) (hs : s = true) (hq : q = n + 1) :
+    IsRun c n [(s, q, c, fr)] := by
+  refine ⟨_, [], rfl, hs, ?_⟩
+  intro i y hy
+  cases i with
+  | zero =>
+    simp only [List.getElem?_cons_zero, Option.some.injEq] at hy
+    subst hy
+    exact ⟨by simp only [List.length_cons, List.length_nil]; omega, rfl⟩
+  | succ i => simp at hy
+
+theorem isRun_snoc {c n : Nat} {run : List Frag} (h : IsRun c n run) (x : Frag) (hn : 1 ≤ n)
+    (hq : x.2.1 = n) (hc : x.2.2.1 = c) : IsRun c (n - 1) (run ++ [x]) := by
+  obtain ⟨x0, tl, rfl, hs, hall⟩ := h
+  refine ⟨x0, tl ++ [x], rfl, hs, ?_⟩
+  intro i y hy
+  by_cases hi : i < (x0 :: tl).length
+  · rw [List.getElem?_append_left hi] at hy
+    have := hall i y hy
+    refine ⟨?_, this.2⟩
+    rw [this.1, List.length_append]
+    simp only [List.length_cons, List.length_nil] at hi ⊢
+    omega
+  · rw [List.getElem?_append_right (by omega)] at hy
+    have hi0 : i - (x0 :: tl).length = 0 := by
+      cases hk : i - (x0 :: tl).length with
+      | zero => rfl
+      | succ k => rw [hk] at hy; simp at hy
+    rw [hi0] at hy
+    simp only [List.getElem?_cons_zero, Option.some.injEq] at hy
+    subst hy
+    refine ⟨?_, hc⟩
+    rw [hq, List.length_append]
+    simp only [List.length_cons, List.length_nil] at hi hi0 ⊢
+    omega
+
+/-- What the sequence state says about the fragments processed so far. -/
+def StInv (processed : List Frag) : SeqState → Prop
+  | .Waiting => True
+  | .Remaining c n => ∃ pre run, processed = pre ++ run ∧ IsRun c n run
+  | .Complete c => processed = [] ∨ ∃ pre run, processed = pre ++ run ∧ IsRun c 0 run
+
+theorem stInv_step (P : List Frag) (st st' : SeqState) (buf buf' : Buf) (x : Frag)
+    (hinv : StInv P st) (h : st.update buf x.1 x.2.1 x.2.2.1 x.2.2.2 = .ok (st', buf')) :
+    StInv (P ++ [x]) st' := by
+  obtain ⟨s, q, cs, fr⟩ := x
+  rcases update_cases _ _ _ _ _ _ _ _ h with ⟨h1, h2, h3, _⟩ | ⟨h1, h2, h3, _⟩ | ⟨h1, h2, h3, h4, _⟩ |
+    ⟨h1, h2, h3, h4, _⟩ | ⟨h4, _⟩
+  · subst h3
+    exact .inr ⟨P, _, rfl, isRun_singleton s q cs fr 0 h1 h2⟩
+  · subst h3
+    have h2' : 2 ≤ q := h2
+    exact ⟨P, _, rfl, isRun_singleton s q cs fr (q - 1) h1 (by omega)⟩
+  · subst h3 h4
+    obtain ⟨pre, run, hP, hrun⟩ := hinv
+    have h2' : q = 1 := h2
+    refine .inr ⟨pre, run ++ [(s, q, cs, fr)], by rw [hP, List.append_assoc], ?_⟩
+    have := isRun_snoc hrun (s, q, cs, fr) (by show 1 ≤ q; omega) rfl rfl
+    rw [show q - 1 = 0 by omega] at this
+    exact this
+  · subst h3 h4
+    obtain ⟨pre, run, hP, hrun⟩ := hinv
+    exact ⟨pre, run ++ [(s, q, cs, fr)], by rw [hP, List.append_assoc],
+      isRun_snoc hrun (s, q, cs, fr) h2 rfl rfl⟩
+  · subst h4; trivial
+
+theorem stInv_updateAll (frs : List Frag) : ∀ (P : List Frag) (st st' : SeqState) (buf buf' : Buf),
+    StInv P st → updateAll st buf frs = .ok (st', buf') → StInv (P ++ frs) st' := by
+  induction frs with
+  | nil =>
+    intro P st st' buf buf' hinv h
+    cases h
+    rw [List.append_nil]; exact hinv
+  | cons x rest ih =>
+    intro P st st' buf buf' hinv h
+    obtain ⟨p, hp, hrest⟩ := res_bind_ok (show (st.update buf x.1 x.2.1 x.2.2.1 x.2.2.2).bind
+      (fun p => updateAll p.1 p.2 rest) = .ok (st', buf') from h)
+    have := ih (P ++ [x]) p.1 st' p.2 buf' (stInv_step P st p.1 buf p.2 x hinv hp) hrest
+    rw [List.append_assoc] at this
+    exact this
+
+theorem updateAll_unique {ua : SeqState → Buf → List Frag → Res (SeqState × Buf)}
+    (h0 : ∀ st b, ua st b [] = .ok (st, b))
+    (h1 : ∀ st b x rest, ua st b (x :: rest)
+      = (st.update b x.1 x.2.1 x.2.2.1 x.2.2.2).bind (fun p => ua p.1 p.2 rest)) :
+    ∀ frs st b, ua st b frs = updateAll st b frs := by
+  intro frs
+  induction frs with
+  | nil => intro st b; rw [h0]; rfl
+  | cons x rest ih =>
+    intro st b
+    rw [h1]
+    show _ = (st.update b x.1 x.2.1 x.2.2.1 x.2.2.2).bind (fun p => updateAll p.1 p.2 rest)
+    congr 1
+    funext p
+    exact ih p.1 p.2
+
+/-- A run of fragments that ends in `Complete c` ends with a start-flagged fragment followed by a
+gap-free countdown to 1, all carrying the checksum byte `c`. -/
+theorem lfn_run_checksums {ua : SeqState → Buf → List Frag → Res (SeqState × Buf)}
+    (st : SeqState) (buf buf' : Buf) (frs : List Frag) (c : Nat)
+    (hst : ∀ c' n, st ≠ .Remaining c' n) (hne : frs ≠ [])
+    (h : ua st buf frs = .ok (.Complete c, buf'))
+    (h0 : ∀ st b, ua st b [] = .ok (st, b) := by intros; rfl)
+    (h1 : ∀ st b x rest, ua st b (x :: rest)
+      = (st.update b x.1 x.2.1 x.2.2.1 x.2.2.2).bind (fun p => ua p.1 p.2 rest) := by intros; rfl) :
+    ∃ pre x tl, frs = pre ++ x :: tl ∧ x.1 = true ∧
+      ∀ i y, (x :: tl)[i]? = some y → y.2.1 = (tl.length + 1) - i ∧ y.2.2.1 = c := by
+  rw [updateAll_unique h0 h1] at h
+  have hinit : StInv [] st := by
+    cases st with
+    | Waiting => trivial
+    | Remaining c' n => exact absurd rfl (hst c' n)
+    | Complete c' => exact .inl rfl
+  have := stInv_updateAll frs [] st _ buf buf' hinit h
+  rw [List.nil_append] at this
+  rcases this with he | ⟨pre, run, hP, x, tl, hrun, hs, hall⟩
+  · exact absurd he hne
+  · subst hrun
+    refine ⟨pre, x, tl, hP, hs, ?_⟩
+    intro i y hy
+    have := hall i y hy
+    simp only [List.length_cons, Nat.zero_add] at this
+    exact this
 
 /-- `SeqState::update` never panics on a 13-unit fragment and keeps the buffer invariant. -/
 theorem update_total (st : SeqState) (buf : Buf) (start : Bool) (sq cs : Nat) (frag : List Nat)
@@ -328,14 +477,6 @@ theorem lfn_listing_total (bufSize : Nat) (es : List (DirEntry × Bytes))
     (_h : ∀ e ∈ es, e.2.length = 32) :
     ∃ out, lfnFold .Waiting (Lfn.new (zeros bufSize)) es = .ok out :=
   lfnFold_total es _ _ (new_inv _).1
-
-theorem res_bind_ok {α β} {r : Res α} {f : α → Res β} {y : β} (h : r.bind f = .ok y) :
-    ∃ a, r = .ok a ∧ f a = .ok y := by
-  cases r with
-  | ok a => exact ⟨a, rfl, h⟩
-  | err e => cases h
-  | panic m => cases h
-  | diverged => cases h
 
 theorem lfnFold_entries (es : List (DirEntry × Bytes)) : ∀ (st : SeqState) (buf : Buf)
     (out : List (DirEntry × Option Bytes)), lfnFold st buf es = .ok out →
